@@ -127,14 +127,27 @@ func (backupManager *BackupManager) DoNativeBackup() error {
 		return err
 	}
 	backupFilename := backupManager.backupLocation + string(os.PathSeparator) + "datahub-backup.kv"
-	// every run appends the changes since the previous run to the backup file
-	file, err := os.OpenFile(backupFilename, os.O_CREATE|os.O_WRONLY|os.O_APPEND, 0o644)
+	// every run writes a complete snapshot and puts it in place of the previous one. An increment since
+	// the previous run cannot be relied on: badger's LSM compaction drops the markers of deleted keys
+	// (dataset records, garbage collected and compacted data), and a restore of first run + increments
+	// would bring the deleted data back.
+	tmpFilename := backupFilename + ".tmp"
+	file, err := os.OpenFile(tmpFilename, os.O_CREATE|os.O_WRONLY|os.O_TRUNC, 0o644)
 	if err != nil {
 		return err
 	}
-	defer file.Close()
-	since, err := backupManager.store.database.Backup(file, backupManager.lastID)
+	since, err := backupManager.store.database.Backup(file, 0)
+	if err == nil {
+		err = file.Sync()
+	}
+	if cerr := file.Close(); err == nil {
+		err = cerr
+	}
 	if err != nil {
+		_ = os.Remove(tmpFilename)
+		return err
+	}
+	if err := os.Rename(tmpFilename, backupFilename); err != nil {
 		return err
 	}
 	backupManager.lastID = since
